@@ -59,7 +59,8 @@ the loader's files into directories is exercised by the differential check):
 * the saved manifest, read as the format document says, assigns to the path of every file exactly the
   bytes the ORIGINAL manifest assigns to it, and the tree has a file for every path of the original
   manifest and no other (so content and total size are preserved file by file);
-* if no name holds 0x7f the saved text is inside the grammar and parses to those lines. -/
+* if no name holds 0x7f the saved text is inside the grammar and parses to those lines;
+* the tree satisfies `SaveOK` over this Keep (so every other C09 theorem applies to it). -/
 theorem C09_load_marshal_preserves (txt : Bytes) (M : C10.Manifest)
     (hvalid : C10.parseSpec txt = some M) (hfit : ∀ s ∈ M, C10.FitsFs s) (htree : C10.TreeConsistent M)
     (k : Keep) (hk : KeepOK hash k)
@@ -75,7 +76,7 @@ theorem C09_load_marshal_preserves (txt : Bytes) (M : C10.Manifest)
             C10.fileContent (blkOf k.store) (streamsOf L') (C10.pathOf (prefixOf d.path) f.1) =
               C10.fileContent (blkOf k.store) M (C10.pathOf (prefixOf d.path) f.1)) ∧
           (∀ p ∈ C10.pathsOf M, ∃ d ∈ t, ∃ f ∈ d.files, p = C10.pathOf (prefixOf d.path) f.1) ∧
-          (NoDel t → parse9 txt' = some L') := by
+          (NoDel t → parse9 txt' = some L') ∧ SaveOK max hash k t := by
   obtain ⟨tr, hload, hinv⟩ := fsLoad_inv txt M hvalid hfit htree
   refine ⟨tr, hload, ?_⟩
   intro t hrep hpn hnn hdirs
@@ -141,7 +142,7 @@ theorem C09_load_marshal_preserves (txt : Bytes) (M : C10.Manifest)
   have hrun : marshal9 hash max k t = (k, t, MRes.ok txt') := by
     unfold marshal9
     simp only [flushTree9_stored (hash := hash) (max := max) k t hstored, if_true, htxt']
-  refine ⟨txt', L', hrun, hL', ?_, ?_, ?_⟩
+  refine ⟨txt', L', hrun, hL', ?_, ?_, ?_, hok⟩
   · intro d hd f hf
     obtain ⟨_, hin, hsegs⟩ := hfile d hd f hf
     have habs : C08.abs k.store f.2 = C10.fileContent (blkOf k.store) M (C10.pathOf (prefixOf d.path) f.1) := by
@@ -194,7 +195,7 @@ theorem C09_load_marshal_checked (txt : Bytes) (M : C10.Manifest)
             C10.fileContent (blkOf k.store) (streamsOf L') (C10.pathOf (prefixOf d.path) f.1) =
               C10.fileContent (blkOf k.store) M (C10.pathOf (prefixOf d.path) f.1)) ∧
           (∀ p ∈ C10.pathsOf M, ∃ d ∈ treeOf s, ∃ f ∈ d.files, p = C10.pathOf (prefixOf d.path) f.1) ∧
-          (NoDel (treeOf s) → parse9 txt' = some L') := by
+          (NoDel (treeOf s) → parse9 txt' = some L') ∧ SaveOK max hash k (treeOf s) := by
   have hsize : ∀ s ∈ M, ∀ b ∈ s.blocks, sizeOfLoc b.text = b.size := by
     intro s hs b hb
     have h1 := parseSpec_blocks txt M hvalid s hs b hb
@@ -238,7 +239,7 @@ theorem C09_load_marshal_total (txt : Bytes) (M : C10.Manifest)
         C10.fileContent (blkOf k.store) (streamsOf L') (C10.pathOf (prefixOf d.path) f.1) =
           C10.fileContent (blkOf k.store) M (C10.pathOf (prefixOf d.path) f.1)) ∧
       (∀ p ∈ C10.pathsOf M, ∃ d ∈ groupTree tr, ∃ f ∈ d.files, p = C10.pathOf (prefixOf d.path) f.1) ∧
-      (NoDel (groupTree tr) → parse9 txt' = some L') := by
+      (NoDel (groupTree tr) → parse9 txt' = some L') ∧ SaveOK max hash k (groupTree tr) := by
   have hsize : ∀ s ∈ M, ∀ b ∈ s.blocks, sizeOfLoc b.text = b.size := by
     intro s hs b hb
     have h1 := parseSpec_blocks txt M hvalid s hs b hb
